@@ -735,8 +735,8 @@ class NodeList(FastTypedDict):
         self._assert_rr(rr, n_slots)
 
         if self.__last_failed_rr__:
-            if self.__last_failed_rr__ >= rr and \
-               self.__last_failed_n__  >= n_slots:
+            if rr      >= self.__last_failed_rr__ and \
+               n_slots >= self.__last_failed_n__:
                 return None
 
         slots = list()
